@@ -333,23 +333,20 @@ fn any_time() -> Time {
     Time::new_ranged(t::Hour::new_unchecked(h), t::Minute::new_unchecked(m), t::Second::new_unchecked(s), t::SubsecNanosecond::new_unchecked(ns))
 }
 
-//@harness c16_roundtrip_civil
-//@target fmt::strtime::{format::Formatter::format, parse::Parser::parse} back to back (%Y-%m-%d, %e, %C, %y, %H:%M:%S, %k, %I %p, %l %P, %f, %.f, %z, %:z) (src/fmt/strtime/format.rs, src/fmt/strtime/parse.rs)
+//@harness c16_roundtrip_date
+//@target fmt::strtime::{format::Formatter::format, parse::Parser::parse} back to back (%Y-%m-%d, %e, %y, %C) (src/fmt/strtime/format.rs, src/fmt/strtime/parse.rs)
 //@prop C16
 //@tier quick
 //@timeout 1500
-//@doc for every civil date, time and offset, each format below is formatted by the real format() loop into a buffer and that text parsed back by the real parse() loop with the same format: parsing is Ok, consumes all of the text, and yields the same fields -- "%Y-%m-%d" (year, month, day; negative and short years included), "%e" (day), "%y" (the year, for 1969..=2068; formatting is Err elsewhere), "%H:%M:%S" and "%k" (hour, minute, second), "%I %p" and "%l %P" (hour after AM/PM reconciliation), "%f" and "%.f" (nanoseconds exactly; "%.f" of a zero fraction prints nothing and parses to an unset fraction), "%z" and "%:z" (offset, any -93599..=93599)
+//@doc for every civil date each format below is formatted by the real format() loop into a buffer and that text parsed back by the real parse() loop with the same format: parsing is Ok, consumes all of the text, and yields the same fields -- "%Y-%m-%d" (year, month, day; negative and short years included), "%e" (day), "%y" (the year, for 1969..=2068; formatting is Err elsewhere), "%C" (the year rounded toward zero to a multiple of 100)
 #[kani::proof]
 #[kani::unwind(26)]
-fn c16_roundtrip_civil() {
+fn c16_roundtrip_date() {
     let date = any_date();
-    let time = any_time();
-    let off: i32 = kani::any();
-    kani::assume(-93599 <= off && off <= 93599);
-    let tm = BrokenDownTime { offset: Some(Offset::from_seconds_unchecked(off)), ..BrokenDownTime::from(DateTime::from_parts(date, time)) };
+    let tm = BrokenDownTime::from(date);
     let mut out = BrokenDownTime::default();
     let which: u8 = kani::any();
-    kani::assume(which < 12);
+    kani::assume(which < 4);
     match which {
         0 => {
             assert!(fmt_then_parse(b"%Y-%m-%d", &tm, &mut out));
@@ -361,20 +358,93 @@ fn c16_roundtrip_civil() {
             assert!(ok == (1969 <= date.year() && date.year() <= 2068));
             if ok { assert!(out.year == tm.year); }
         }
-        3 => {
-            assert!(fmt_then_parse(b"%H:%M:%S", &tm, &mut out));
-            assert!(out.hour == tm.hour && out.minute == tm.minute && out.second == tm.second && out.meridiem.is_none());
-        }
-        4 => { assert!(fmt_then_parse(b"%k", &tm, &mut out)); assert!(out.hour == tm.hour); }
-        5 => { assert!(fmt_then_parse(b"%I %p", &tm, &mut out)); assert!(out.hour_ranged() == tm.hour && out.meridiem == tm.meridiem); }
-        6 => { assert!(fmt_then_parse(b"%l %P", &tm, &mut out)); assert!(out.hour_ranged() == tm.hour && out.meridiem == tm.meridiem); }
-        7 => { assert!(fmt_then_parse(b"%f", &tm, &mut out)); assert!(out.subsec == tm.subsec); }
-        8 => {
-            assert!(fmt_then_parse(b"%.f", &tm, &mut out));
-            if time.subsec_nanosecond() == 0 { assert!(out.subsec.is_none()); } else { assert!(out.subsec == tm.subsec); }
-        }
-        9 => { assert!(fmt_then_parse(b"%z", &tm, &mut out)); assert!(out.offset.map(|o| o.seconds()) == Some(off)); }
-        10 => { assert!(fmt_then_parse(b"%:z", &tm, &mut out)); assert!(out.offset.map(|o| o.seconds()) == Some(off)); }
         _ => { assert!(fmt_then_parse(b"%C", &tm, &mut out)); assert!(out.year.map(|y| y.get() as i64) == Some((date.year() as i64 / 100) * 100)); }
     }
+}
+
+//@harness c16_roundtrip_time
+//@target fmt::strtime::{format::Formatter::format, parse::Parser::parse} back to back (%H:%M:%S, %k, %T, %R) (src/fmt/strtime/format.rs, src/fmt/strtime/parse.rs)
+//@prop C16
+//@tier quick
+//@timeout 1500
+//@doc for every civil time: "%H:%M:%S", "%T" (hour, minute, second), "%R" (hour, minute) and "%k" (hour) are formatted by the real format() loop and parsed back by the real parse() loop with the same format: Ok, all text consumed, same fields, no meridiem set
+#[kani::proof]
+#[kani::unwind(26)]
+fn c16_roundtrip_time() {
+    let time = any_time();
+    let tm = BrokenDownTime::from(time);
+    let mut out = BrokenDownTime::default();
+    let which: u8 = kani::any();
+    kani::assume(which < 4);
+    match which {
+        0 => { assert!(fmt_then_parse(b"%H:%M:%S", &tm, &mut out)); assert!(out.hour == tm.hour && out.minute == tm.minute && out.second == tm.second); }
+        1 => { assert!(fmt_then_parse(b"%T", &tm, &mut out)); assert!(out.hour == tm.hour && out.minute == tm.minute && out.second == tm.second); }
+        2 => { assert!(fmt_then_parse(b"%R", &tm, &mut out)); assert!(out.hour == tm.hour && out.minute == tm.minute && out.second.is_none()); }
+        _ => { assert!(fmt_then_parse(b"%k", &tm, &mut out)); assert!(out.hour == tm.hour); }
+    }
+    assert!(out.meridiem.is_none());
+}
+
+//@harness c16_roundtrip_ampm
+//@target fmt::strtime::{format::Formatter::format, parse::Parser::parse} back to back (%I %p, %l%P) + BrokenDownTime::{hour_ranged,to_time} (src/fmt/strtime/format.rs, src/fmt/strtime/parse.rs, src/fmt/strtime/mod.rs)
+//@prop C16
+//@tier quick
+//@timeout 1500
+//@doc for each of the 24 hours (enumerated, so that the case mapping runs on concrete characters) and every minute: "%I:%M %p" and "%l:%M%P" are formatted and parsed back on the real code: Ok, all text consumed, and the reconciled time (to_time) is the original hour and minute -- 12 AM is hour 0 and 12 PM is hour 12
+#[kani::proof]
+#[kani::unwind(26)]
+fn c16_roundtrip_ampm() {
+    let mi: i8 = kani::any(); kani::assume(0 <= mi && mi <= 59);
+    let lower: bool = kani::any();
+    let mut h: i8 = 0;
+    while h < 24 {
+        let time = Time::new_ranged(t::Hour::new_unchecked(h), t::Minute::new_unchecked(mi), t::Second::new_unchecked(0), t::SubsecNanosecond::new_unchecked(0));
+        let tm = BrokenDownTime::from(time);
+        let mut out = BrokenDownTime::default();
+        if lower { assert!(fmt_then_parse(b"%l:%M%P", &tm, &mut out)); } else { assert!(fmt_then_parse(b"%I:%M %p", &tm, &mut out)); }
+        assert!(out.meridiem == tm.meridiem);
+        let back = out.to_time();
+        assert!(back.is_ok());
+        let back = back.unwrap();
+        assert!(back.hour() == h && back.minute() == mi);
+        h += 1;
+    }
+}
+
+//@harness c16_roundtrip_fraction
+//@target fmt::strtime::{format::Formatter::format, parse::Parser::parse} back to back (%f, %.f) + util::parse::fraction (src/fmt/strtime/format.rs, src/fmt/strtime/parse.rs, src/util/parse.rs)
+//@prop C16
+//@tier thorough
+//@timeout 1500
+//@doc for every nanosecond count 0..=999_999_999: "%f" and "%.f" are formatted and parsed back on the real code: Ok, all text consumed, the same nanosecond count ("%.f" of a zero fraction prints nothing and leaves the fraction unset)
+#[kani::proof]
+#[kani::unwind(26)]
+fn c16_roundtrip_fraction() {
+    let time = any_time();
+    let tm = BrokenDownTime::from(time);
+    let mut out = BrokenDownTime::default();
+    if kani::any() {
+        assert!(fmt_then_parse(b"%f", &tm, &mut out));
+        assert!(out.subsec == tm.subsec);
+    } else {
+        assert!(fmt_then_parse(b"%.f", &tm, &mut out));
+        if time.subsec_nanosecond() == 0 { assert!(out.subsec.is_none()); } else { assert!(out.subsec == tm.subsec); }
+    }
+}
+
+//@harness c16_roundtrip_offset
+//@target fmt::strtime::{format::Formatter::format, parse::Parser::parse} back to back (%z, %:z) (src/fmt/strtime/format.rs, src/fmt/strtime/parse.rs)
+//@prop C16 C09
+//@tier quick
+//@timeout 1500
+//@doc for every offset -93599..=93599: "%z" and "%:z" are formatted and parsed back on the real code: Ok, all text consumed, the same offset (seconds included; negative offsets below one hour keep their sign)
+#[kani::proof]
+#[kani::unwind(26)]
+fn c16_roundtrip_offset() {
+    let off: i32 = kani::any();
+    kani::assume(-93599 <= off && off <= 93599);
+    let tm = BrokenDownTime { offset: Some(Offset::from_seconds_unchecked(off)), ..BrokenDownTime::default() };
+    let mut out = BrokenDownTime::default();
+    if kani::any() { assert!(fmt_then_parse(b"%z", &tm, &mut out)); } else { assert!(fmt_then_parse(b"%:z", &tm, &mut out)); }
+    assert!(out.offset.map(|o| o.seconds()) == Some(off));
 }
